@@ -232,9 +232,13 @@ def run_projection(arity, holes, steps, explicit, vals):
     """Build the named-intermediate program for one pattern / fill order."""
     P = ['x', 'y', 'z'][:arity]
     weights = [100, 10, 1]
-    body = '+'.join(f'({p}*{w})' for p, w in zip(P, weights[:arity]))
-    body = '(' + ';'.join(P) + ';' + body + ')'
-    stmts = ['f::{' + ';'.join(P) + ';' + '+'.join(f'({p}*{w})' for p, w in zip(P, weights[:arity])) + '}']
+    structured = any(isinstance(v, str) for v in vals)       # argument values given as literal text (lists, strings, [])
+    if structured:
+        # the function returns the list of its arguments; the oracle is the same body with the literals substituted
+        record = lambda names: ','.join('(,' + n + ')' for n in names[:-1]) + ',,' + names[-1]
+        stmts = ['f::{' + ';'.join(P) + ';' + record(P) + '}']
+    else:
+        stmts = ['f::{' + ';'.join(P) + ';' + '+'.join(f'({p}*{w})' for p, w in zip(P, weights[:arity])) + '}']
     first = ';'.join('' if i in holes else str(vals[i]) for i in range(arity))
     stmts.append(f'p0::f({first})')
     open_holes = list(holes)
@@ -250,6 +254,8 @@ def run_projection(arity, holes, steps, explicit, vals):
         call = f"{name}({';'.join(args)})"
         open_holes = [h for h in open_holes if h not in step]
         if last:
+            if structured:
+                return stmts, call, ('text', record([str(v) for v in vals[:arity]]))
             return stmts, call, sum(v * w for v, w in zip(vals, weights[:arity]))
         name = f'p{si + 1}'
         stmts.append(f'{name}::{call}')
@@ -264,7 +270,7 @@ def projection_shard(idx, nshards):
     for n, (arity, holes, steps, explicit) in enumerate(projection_cases()):
         if n % nshards != idx:
             continue
-        for vals in ([1, 2, 3], [7, 0, 4]):
+        for vals in ([1, 2, 3], [7, 0, 4], ['[1 2]', '"ab"', '[]'], ['[]', '[3 4 5]', '7'], ['[[1] [2 3]]', '0', '[9 8]']):
             judge_projection(stats, report, arity, holes, steps, explicit, vals)
     return stats
 
@@ -282,7 +288,13 @@ def judge_projection(stats, report, arity, holes, steps, explicit, vals):
     stats.case(('proj', arity, tuple(holes), tuple(map(tuple, steps)), explicit, tuple(vals)), nontrivial=True,
                classes=['part:projection', 'arity:%d' % arity, 'steps:%d' % len(steps)],
                sample={"program": stmts + [call], "expected": want, "value": so(got)})
-    if not (got[0] == 'val' and got[1] == ('i', want)):
+    if isinstance(want, tuple) and want[0] == 'text':
+        wv = outcome(fresh(), want[1])
+        ok = got == wv
+        want = so(wv)
+    else:
+        ok = got[0] == 'val' and got[1] == ('i', want)
+    if not ok:
         order = 'in-order' if [h for s in steps for h in s] == sorted(holes) else 'out-of-order'
         report(f"projection/arity{arity}/holes{len(holes)}/steps{len(steps)}/{order}/{'explicit' if explicit else 'short'}",
                {"part": "proj", "arity": arity, "holes": list(holes), "steps": [list(s) for s in steps], "explicit": explicit,
@@ -471,7 +483,9 @@ def judge_failure(stats, report, fns, pos):
 
 TRUTH = [('0', False), ('[]', False), ('""', False), ('1', True), ('(-1)', True), ('2.5', True), ('[0]', True), ('"a"', True),
          (':s', True), ('0c0', True), (':{[1 2]}', True), ('{x}', True), ('[[]]', True), ('0c ', True), ('(1-1)', False),
-         ('(1_[7])', False), ('(,0)', True)]
+         ('(1_[7])', False), ('(,0)', True),
+         # non-zero reals of every magnitude are true ("everything else is true"): also tiny ones and rounding residue
+         ('1.0e-9', True), ('(-1.0e-12)', True), ('1.0e-300', True), ('((0.1+0.2)-0.3)', True), ('(1%3000000000)', True)]
 
 
 def cond_shard(idx, nshards):
